@@ -11,6 +11,7 @@ T1 no silent narrowing of an integer value.
 """
 from ..linrel import Lin, GE, LE, GT, LT, infeasible, entails
 from ..cfg import Facts, kids, strip, walk, cv, render, short_loc, call_args, TRANSPARENT, call_object
+import re
 from ..facts import export_many, AnalysisBroken
 from .. import units
 
@@ -341,6 +342,34 @@ def run(rep, ctx):
     if not ps:
         raise AnalysisBroken("BasicSolver::ParseOptionString not found")
     g = ps[0]
+    # ---- D1: delegating Parse overrides pass the tokeniser's arguments on unchanged ----------------------
+    d1 = rep.rule("C11.D1", "FLOW", "an option's Parse that delegates to another Parse forwards the cursor and the from-command-line flag unchanged", floor=3)
+    dx = export_many([dict(unit="src/solver.cc", fn=[r"mp::.*::Parse"], repo=repo)])
+    Fd = Facts(dx)
+    seen_d = set()
+    for g_ in Fd.funcs:
+        if g_.is_dependent() or g_.cfg is None or len(g_.params) != 2 or "bool" not in (g_.params[1].get("ct") or ""):
+            continue
+        if not (g_.d.get("overrides") or g_.qn.endswith("TypedSolverOption::Parse")):
+            continue
+        dels = [c for c in g_.walk() if c["k"] in ("CXXMemberCallExpr", "CallExpr") and (c.get("callee") or "").split("::")[-1] == "Parse" and len(call_args(c)) >= 1]
+        if not dels:
+            continue
+        key = re.sub(r"mp::|std::", "", g_.full)[:70]
+        if key in seen_d:
+            continue
+        seen_d.add(key)
+        okd = True
+        why = ""
+        for c in dels:
+            a = call_args(c)
+            refs = [strip(x).get("declId") for x in a]
+            if len(a) < 2 or refs[0] != g_.params[0]["declId"] or refs[1] != g_.params[1]["declId"]:
+                okd = False
+                why = "calls %s(%s)" % ((c.get("callee") or "").replace("mp::", ""), ", ".join(render(x) for x in a))
+        d1.check(okd, "forward|" + key, short_loc(g_.loc), "%s forwards (cursor, flag) to the Parse it delegates to" % key,
+                 "%s %s: the from-command-line flag (or the cursor) is not passed on, so a value with a blank or a quote given on the command line is split differently when the option is reached through this object" % (key, why))
+
     # ---- B1: the option-name copy stays inside its buffer ------------------------------------------------
     b1 = rep.rule("C11.B1", "RANGE", "every element written in the option-name buffer lies below the size the buffer was resized to", floor=2)
     gb = ps[0]
